@@ -56,6 +56,7 @@ type vfRecCase struct {
 	Ev           []vfEv   `json:"ev"`
 	Faults       vfFaults `json:"faults"`
 	ProcessFrame bool     `json:"process_frame,omitempty"` // feed through ProcessFrame() instead of Process()
+	Lepton       bool     `json:"lepton,omitempty"`        // raw Lepton frames through lepton3.ParseRawFrame instead of the harness parser
 }
 
 // vfCall is one call received by a sink.
@@ -224,6 +225,7 @@ type vfRecRun struct {
 	accepted []int // event index of each accepted frame (position = frame id)
 	idOf     map[int]int
 	panicked string
+	badNotReported string
 	mp       *MotionProcessor
 	intended map[int]bool
 }
@@ -251,22 +253,43 @@ func vfDrive(c vfRecCase, perEvent func(run *vfRecRun, i int)) *vfRecRun {
 	} else {
 		csink = (*vfSink)(nil) // typed nil, as main.go passes a nil *CPTVFileRecorder
 	}
-	mp := NewMotionProcessor(vfParse, vfMotionConf(c.Cfg), rc, &config.Location{}, &vfListener{tr}, msink, cam, csink, tsink)
+	var parser FrameParser = vfParse
+	if c.Lepton {
+		parser = lepton3.ParseRawFrame
+	}
+	mp := NewMotionProcessor(parser, vfMotionConf(c.Cfg), rc, &config.Location{}, &vfListener{tr}, msink, cam, csink, tsink)
 	run.mp = mp
 
 	raw := make([]byte, vfRawHdr+2*c.Cfg.W*c.Cfg.H)
+	if c.Lepton {
+		raw = make([]byte, 640+2*c.Cfg.W*c.Cfg.H)
+	}
 	level := false // state of the toggling pixel in the last accepted frame
 	src := cptvframe.NewFrame(cam)
 	fill := func(id int, bad bool, lvl bool) {
-		if bad {
-			raw[0] = 1
+		put := func(i int, v uint16) { binary.LittleEndian.PutUint16(raw[vfRawHdr+2*i:], v) }
+		if c.Lepton {
+			for i := range raw[:640] {
+				raw[i] = 0
+			}
+			w := func(i int, v uint16) { binary.BigEndian.PutUint16(raw[2*i:], v) }
+			on := uint32(60000 + 111*len(run.accepted))
+			w(1, uint16(on))
+			w(2, uint16(on>>16))
+			w(20, uint16(uint32(int32(id))))
+			w(21, uint16(uint32(int32(id))>>16))
+			put = func(i int, v uint16) { binary.BigEndian.PutUint16(raw[640+2*i:], v) }
 		} else {
-			raw[0] = 0
+			if bad {
+				raw[0] = 1
+			} else {
+				raw[0] = 0
+			}
+			binary.LittleEndian.PutUint32(raw[1:], uint32(int32(id)))
+			binary.LittleEndian.PutUint32(raw[5:], uint32(60000+111*len(run.accepted)))
+			binary.LittleEndian.PutUint32(raw[9:], 0)
 		}
-		binary.LittleEndian.PutUint32(raw[1:], uint32(int32(id)))
-		binary.LittleEndian.PutUint32(raw[5:], uint32(60000+111*len(run.accepted)))
-		binary.LittleEndian.PutUint32(raw[9:], 0)
-		i := vfRawHdr
+		i := 0
 		for y := 0; y < c.Cfg.H; y++ {
 			for x := 0; x < c.Cfg.W; x++ {
 				v := uint16(vfBase)
@@ -280,8 +303,8 @@ func vfDrive(c vfRecCase, perEvent func(run *vfRecRun, i int)) *vfRecRun {
 				if bad && y == c.Cfg.Edge && x == c.Cfg.Edge {
 					v = 0
 				}
-				binary.LittleEndian.PutUint16(raw[i:], v)
-				i += 2
+				put(i, v)
+				i++
 			}
 		}
 	}
@@ -305,7 +328,7 @@ func vfDrive(c vfRecCase, perEvent func(run *vfRecRun, i int)) *vfRecRun {
 				run.accepted = append(run.accepted, i)
 				run.idOf[i] = id
 				if c.ProcessFrame {
-					vfParse(raw, src, c.Cfg.Edge)
+					parser(raw, src, c.Cfg.Edge)
 					mp.ProcessFrame(src)
 				} else if err := mp.Process(raw); err != nil {
 					run.panicked = fmt.Sprintf("valid frame at event %d rejected: %v", i, err)
@@ -316,9 +339,15 @@ func vfDrive(c vfRecCase, perEvent func(run *vfRecRun, i int)) *vfRecRun {
 				if c.ProcessFrame {
 					break // no bad frames on this path
 				}
-				if err := mp.Process(raw); err == nil {
+				err := mp.Process(raw)
+				if err == nil {
 					run.panicked = fmt.Sprintf("bad frame at event %d accepted", i)
 					return
+				}
+				// a bad frame must be reported as such (how the daemon reacts to it is checked end to end)
+				var bfe *lepton3.BadFrameErr
+				if !errors.As(err, &bfe) && run.badNotReported == "" {
+					run.badNotReported = fmt.Sprintf("the bad frame at event %d is not reported as a bad frame: Process returned %T (%v), not a *lepton3.BadFrameErr", i, err, err)
 				}
 			case vfEvReset:
 				mp.Reset(cam)
